@@ -98,3 +98,31 @@ Example C09_float_two_sided_fixed :
   let d := ex_decl (FFloat true) [] [VGreater (BLit 0); VLessOrEqual (BLit 4607182418800017408)] in
   arb_float (the_lib d) d [0; 0; 0; 0; 0; 0; 0; 0] = OOk (VF 4391576639459776022).
 Proof. vm_compute. reflexivity. Qed.
+
+(* --- strings: the generator is total and yields only valid values ----------------------- *)
+From NV Require Import Lemmas.ArbStrLemmas Macro.Validate.
+From NV.Unicode Require UStr.
+
+(* declarations without case-mapping sanitizers (none, or trim), validators among
+   len_char_min / len_char_max / not_empty (literal or expression bounds), non-empty valid set:
+   for EVERY byte string the refill loop terminates within the model's fuel, the
+   unreachable!() arm is never taken, and the value returned is valid *)
+Theorem C09_str :
+  forall (lib : fnlib), l_trim lib = UStr.u_trim ->
+  forall (d : decl) (vs : list validator) (mn mx : Z) (bs : bytes),
+    d_family d = FStr -> d_validation d = Some (RVStandard vs) ->
+    forallb str_gen_validator vs = true -> str_gen_sans (d_sans d) = true ->
+    has_dup vkind_eqb (map vkind_of vs) = false ->
+    str_spec d = (mn, mx) -> 0 <= mn <= mx -> mx - mn <= 2 ^ 64 - 1 -> bytes_ok bs = true ->
+    exists v, arb_str lib d bs = OOk v /\ spec_valid lib d v = true.
+Proof. exact arb_str_valid. Qed.
+Print Assumptions C09_str.
+
+Theorem C09_str_refill_terminates :
+  forall (lib : fnlib), l_trim lib = UStr.u_trim ->
+  forall (target : nat) (out : list N) (bs : bytes),
+    (List.length (UStr.u_trim out) <= target)%nat ->
+    exists s, refill lib (List.length bs + target + 1) target out bs = Some s /\
+              List.length (UStr.u_trim s) = target.
+Proof. exact refill_model_fuel. Qed.
+Print Assumptions C09_str_refill_terminates.
